@@ -1028,3 +1028,873 @@ Section Transp.
     destruct (walk_root (index_chk H) (index_hdir H) (norm_entries ign es) s0) as [d s]. simpl in *. auto.
   Qed.
 End Transp.
+
+(* ================================================================== byte level of cache.bin *)
+
+Lemma firstn_len_app : forall (A : Type) (a b : list A) n, length a = n -> firstn n (a ++ b) = a.
+Proof. intros. subst. rewrite firstn_app, Nat.sub_diag, firstn_all. simpl. apply app_nil_r. Qed.
+
+Lemma skipn_len_app : forall (A : Type) (a b : list A) n, length a = n -> skipn n (a ++ b) = b.
+Proof. intros. subst. rewrite skipn_app, Nat.sub_diag, skipn_all. reflexivity. Qed.
+
+Definition rec_packable (r : rec) : Prop :=
+  r_ctime r < 18446744073709551616 /\ r_mtime r < 18446744073709551616 /\ r_dev r < 18446744073709551616 /\
+  r_ino r < 18446744073709551616 /\ r_mode r < 4294967296 /\ r_size r < 18446744073709551616 /\
+  length (r_digest r) = 20%nat /\ N.of_nat (length (r_name r)) < 65536.
+
+Lemma fit20_id : forall d, length d = 20%nat -> fit20 d = d.
+Proof. intros. unfold fit20. apply firstn_len_app. auto. Qed.
+
+Lemma fit20_length : forall d, length (fit20 d) = 20%nat.
+Proof.
+  intros. unfold fit20. rewrite firstn_length, app_length, repeat_length. lia.
+Qed.
+
+Lemma pack_entry_length : forall r, length (pack_entry r) = 66%nat.
+Proof.
+  intros. unfold pack_entry. rewrite !app_length, !le_enc_length, fit20_length. reflexivity.
+Qed.
+
+Lemma unpack_fields : forall f1 f2 f3 f4 f5 f6 dg f8,
+  length f1 = 8%nat -> length f2 = 8%nat -> length f3 = 8%nat -> length f4 = 8%nat ->
+  length f5 = 4%nat -> length f6 = 8%nat -> length dg = 20%nat -> length f8 = 2%nat ->
+  unpack_entry (f1 ++ f2 ++ f3 ++ f4 ++ f5 ++ f6 ++ dg ++ f8) =
+  (fun nm => mkrec nm (le_dec f1) (le_dec f2) (le_dec f3) (le_dec f4) (le_dec f5) (le_dec f6) dg, le_dec f8).
+Proof.
+  intros. unfold unpack_entry.
+  repeat (rewrite ?(firstn_len_app _ f1), ?(skipn_len_app _ f1),
+                  ?(firstn_len_app _ f2), ?(skipn_len_app _ f2),
+                  ?(firstn_len_app _ f3), ?(skipn_len_app _ f3),
+                  ?(firstn_len_app _ f4), ?(skipn_len_app _ f4),
+                  ?(firstn_len_app _ f5), ?(skipn_len_app _ f5),
+                  ?(firstn_len_app _ f6), ?(skipn_len_app _ f6),
+                  ?(firstn_len_app _ dg), ?(skipn_len_app _ dg) by assumption).
+  rewrite firstn_all2 by lia. reflexivity.
+Qed.
+
+Lemma unpack_pack : forall r, rec_packable r ->
+  unpack_entry (pack_entry r) =
+  (fun nm => mkrec nm (r_ctime r) (r_mtime r) (r_dev r) (r_ino r) (r_mode r) (r_size r) (r_digest r),
+   N.of_nat (length (r_name r))).
+Proof.
+  intros r (H1 & H2 & H3 & H4 & H5 & H6 & H7 & H8). unfold pack_entry.
+  rewrite unpack_fields; try apply le_enc_length; try apply fit20_length.
+  rewrite !le_dec_enc, fit20_id; auto; simpl; lia.
+Qed.
+
+Lemma read_entry_ser : forall r rest, rec_packable r ->
+  read_entry (ser_rec r ++ rest) = Some (r, 66 + N.of_nat (length (r_name r)), rest).
+Proof.
+  intros r rest Hp. unfold read_entry, ser_rec, ENTRY_SIZE.
+  rewrite <- app_assoc.
+  rewrite (firstn_len_app _ (pack_entry r)) by apply pack_entry_length.
+  rewrite (skipn_len_app _ (pack_entry r)) by apply pack_entry_length.
+  rewrite pack_entry_length. simpl (66 <? 66)%nat. cbv iota.
+  rewrite unpack_pack by auto.
+  rewrite Nat2N.id.
+  rewrite (firstn_len_app _ (r_name r)) by reflexivity.
+  rewrite (skipn_len_app _ (r_name r)) by reflexivity.
+  destruct r; reflexivity.
+Qed.
+
+(* a record that is followed by more bytes is complete; reading it does not depend on what follows *)
+Lemma read_entry_complete : forall b r len rest,
+  read_entry b = Some (r, len, rest) -> rest <> [] ->
+  exists chunk, b = chunk ++ rest /\ N.of_nat (length chunk) = len /\
+                forall tail, read_entry (chunk ++ tail) = Some (r, len, tail).
+Proof.
+  unfold read_entry, ENTRY_SIZE. intros b r len rest E Hr.
+  assert (Eb : b = firstn 66 b ++ skipn 66 b) by (symmetry; apply firstn_skipn).
+  remember (firstn 66 b) as raw. remember (skipn 66 b) as b66.
+  destruct (length raw <? 66)%nat eqn:L; [discriminate|].
+  apply Nat.ltb_ge in L.
+  assert (L66 : length raw = 66%nat).
+  { pose proof (firstn_le_length 66 b). subst raw. lia. }
+  destruct (unpack_entry raw) as [mk nl] eqn:U.
+  assert (E1 : mk (firstn (N.to_nat nl) b66) = r) by congruence.
+  assert (E2 : N.of_nat 66 + nl = len) by congruence.
+  assert (E3 : skipn (N.to_nat nl) b66 = rest) by congruence.
+  clear E.
+  assert (Ln : length (firstn (N.to_nat nl) b66) = N.to_nat nl).
+  { rewrite firstn_length. destruct (Nat.le_gt_cases (N.to_nat nl) (length b66)) as [C|C]; [lia|].
+    exfalso. apply Hr. rewrite <- E3. apply skipn_all2. lia. }
+  exists (raw ++ firstn (N.to_nat nl) b66). split; [|split].
+  - rewrite <- app_assoc, <- E3. rewrite (firstn_skipn (N.to_nat nl) b66). auto.
+  - rewrite app_length, L66, Ln, Nat2N.inj_add, N2Nat.id. exact E2.
+  - intros tail. rewrite <- app_assoc.
+    rewrite (firstn_len_app _ raw) by auto.
+    rewrite (skipn_len_app _ raw) by auto.
+    rewrite L66. simpl (66 <? 66)%nat. cbv iota. rewrite U.
+    rewrite (firstn_len_app _ (firstn (N.to_nat nl) b66)) by auto.
+    rewrite (skipn_len_app _ (firstn (N.to_nat nl) b66)) by auto.
+    rewrite E1, E2. reflexivity.
+Qed.
+
+Lemma read_entry_shrink : forall b r len rest,
+  read_entry b = Some (r, len, rest) -> (length rest + 66 <= length b)%nat /\ 66 <= len.
+Proof.
+  unfold read_entry, ENTRY_SIZE. intros b r len rest E.
+  destruct (length (firstn 66 b) <? 66)%nat eqn:L; [discriminate|].
+  apply Nat.ltb_ge in L. rewrite firstn_length in L.
+  destruct (unpack_entry (firstn 66 b)) as [mk nl].
+  assert (E2 : N.of_nat 66 + nl = len) by congruence.
+  assert (E3 : skipn (N.to_nat nl) (skipn 66 b) = rest) by congruence.
+  assert (N.of_nat 66 = 66) by reflexivity.
+  subst. rewrite !skipn_length. lia.
+Qed.
+
+Lemma read_entry_digest : forall b r len rest,
+  read_entry b = Some (r, len, rest) -> length (r_digest r) = 20%nat.
+Proof.
+  unfold read_entry, ENTRY_SIZE. intros b r len rest E.
+  destruct (length (firstn 66 b) <? 66)%nat eqn:L; [discriminate|].
+  apply Nat.ltb_ge in L.
+  rewrite firstn_length in L.
+  unfold unpack_entry in E.
+  match type of E with Some (?x, _, _) = _ => assert (E1 : x = r) by congruence end.
+  subst r. cbn [r_digest].
+  rewrite firstn_length, !skipn_length, firstn_length. lia.
+Qed.
+
+Lemma parse_fuel_gen : forall f1 f2 b pos, (length b <= f1)%nat -> (length b <= f2)%nat ->
+  parse_entries f1 pos b = parse_entries f2 pos b.
+Proof.
+  induction f1; destruct f2; intros b pos L1 L2; simpl; auto.
+  - destruct b; simpl in *; try lia. reflexivity.
+  - destruct b; simpl in *; try lia. reflexivity.
+  - destruct (read_entry b) as [[[r len] rest]|] eqn:E; auto.
+    apply read_entry_shrink in E. f_equal. apply IHf1; lia.
+Qed.
+
+Lemma parse_fuel : forall f b pos, (length b <= f)%nat -> parse_entries f pos b = parse_body pos b.
+Proof. intros. unfold parse_body. apply parse_fuel_gen; lia. Qed.
+
+Lemma parse_body_step : forall pos b,
+  parse_body pos b = match read_entry b with
+                     | None => []
+                     | Some (r, len, rest) => (pos, r) :: parse_body (pos + len) rest
+                     end.
+Proof.
+  intros. unfold parse_body at 1. destruct b.
+  - reflexivity.
+  - cbn [length parse_entries].
+    destruct (read_entry (n :: b)) as [[[r len] rest]|] eqn:E; auto.
+    f_equal. apply parse_fuel. apply read_entry_shrink in E. simpl in E. lia.
+Qed.
+
+Lemma parse_offsets_ge : forall f pos b o r, In (o, r) (parse_entries f pos b) -> pos <= o.
+Proof.
+  induction f; simpl; intros; try tauto.
+  destruct (read_entry b) as [[[r0 len] rest]|] eqn:E; simpl in H; try tauto.
+  destruct H.
+  - inversion H; subst. lia.
+  - apply IHf in H. lia.
+Qed.
+
+Lemma parse_digests : forall f pos b, Forall (fun x => length (r_digest (snd x)) = 20%nat) (parse_entries f pos b).
+Proof.
+  induction f; simpl; intros; auto.
+  destruct (read_entry b) as [[[r0 len] rest]|] eqn:E; auto.
+  constructor; auto. simpl. eapply read_entry_digest; eauto.
+Qed.
+
+Definition before (cut : N) (x : N * rec) : bool := fst x <? cut.
+
+Lemma filter_before_none : forall cut l, (forall o r, In (o, r) l -> cut <= o) -> filter (before cut) l = [].
+Proof.
+  induction l as [|[o r] l IH]; simpl; intros; auto.
+  unfold before at 1. simpl. assert (cut <= o) by (eapply H; eauto).
+  destruct (o <? cut) eqn:E. { apply N.ltb_lt in E. lia. }
+  apply IH. intros. eapply H; eauto.
+Qed.
+
+(* cutting the file at the start of a record and appending something else *)
+Lemma parse_cut : forall f body pos cut tail,
+  In cut (pos :: map fst (parse_entries f pos body)) ->
+  parse_body pos (firstn (N.to_nat (cut - pos)) body ++ tail) =
+  filter (before cut) (parse_entries f pos body) ++ parse_body cut tail.
+Proof.
+  induction f; intros body pos cut tail I.
+  - simpl in I. destruct I as [I|[]]. subst. rewrite N.sub_diag. simpl. reflexivity.
+  - destruct (N.eq_dec cut pos) as [E|NE].
+    + subst. rewrite N.sub_diag.
+      rewrite filter_before_none by (intros o r Ho; eapply parse_offsets_ge; eauto). reflexivity.
+    + destruct I as [I|I]; [congruence|].
+      cbn [parse_entries] in *.
+      destruct (read_entry body) as [[[r len] rest]|] eqn:E; [|simpl in I; tauto].
+      simpl in I. destruct I as [I|I]; [congruence|].
+      assert (Hge : pos + len <= cut).
+      { apply in_map_iff in I. destruct I as ([o r'] & Eo & Io). simpl in Eo. subst o.
+        eapply parse_offsets_ge; eauto. }
+      assert (Hr : rest <> []).
+      { intro. subst rest. destruct f; simpl in I; tauto. }
+      destruct (read_entry_complete _ _ _ _ E Hr) as (chunk & Eb & Lc & Rd).
+      pose proof (read_entry_shrink _ _ _ _ E) as [_ L66].
+      assert (F : firstn (N.to_nat (cut - pos)) body = chunk ++ firstn (N.to_nat (cut - (pos + len))) rest).
+      { rewrite Eb. rewrite firstn_app.
+        rewrite firstn_all2 by lia. f_equal. f_equal. lia. }
+      rewrite F, <- app_assoc. rewrite parse_body_step, Rd.
+      rewrite (IHf rest (pos + len) cut tail) by (right; auto).
+      simpl. unfold before. simpl.
+      assert (pos <? cut = true) by (apply N.ltb_lt; lia). rewrite H. reflexivity.
+Qed.
+
+Lemma parse_ser : forall es pos, Forall rec_packable es ->
+  map snd (parse_body pos (flat_map ser_rec es)) = es.
+Proof.
+  induction es; intros pos F; cbn [flat_map].
+  - reflexivity.
+  - inversion F; subst. rewrite parse_body_step, read_entry_ser by auto. cbn [map snd]. f_equal. apply IHes. auto.
+Qed.
+
+Lemma SIGNATURE_length : length SIGNATURE = 4%nat.
+Proof. reflexivity. Qed.
+
+(* records of the new cache file = kept records of the old one ++ the entries written *)
+Lemma new_file_records_in : forall b cut es,
+  bytes_eqb (firstn 4 b) SIGNATURE = true ->
+  In cut (4 :: map fst (parse_body 4 (skipn 4 b))) ->
+  Forall rec_packable es ->
+  file_records (firstn (N.to_nat cut) b ++ flat_map ser_rec es) =
+  map snd (filter (before cut) (parse_body 4 (skipn 4 b))) ++ es.
+Proof.
+  intros b cut es Hs Hc Hp. apply bytes_eqb_eq in Hs.
+  assert (L4 : length (firstn 4 b) = 4%nat) by (rewrite Hs; apply SIGNATURE_length).
+  assert (Hge : 4 <= cut).
+  { destruct Hc as [Hc|Hc]; [lia|]. apply in_map_iff in Hc. destruct Hc as ([o r] & Eo & Io). simpl in Eo. subst.
+    eapply parse_offsets_ge; eauto. }
+  unfold file_records.
+  assert (E : skipn 4 (firstn (N.to_nat cut) b ++ flat_map ser_rec es) =
+              firstn (N.to_nat (cut - 4)) (skipn 4 b) ++ flat_map ser_rec es).
+  { rewrite <- (firstn_skipn 4 b) at 1. rewrite firstn_app, L4.
+    rewrite firstn_all2 by (rewrite firstn_length; lia).
+    rewrite <- app_assoc. rewrite (skipn_len_app _ (firstn 4 b)) by auto.
+    f_equal. f_equal. lia. }
+  rewrite E. unfold parse_body at 1 in Hc.
+  rewrite (parse_cut (length (skipn 4 b)) (skipn 4 b) 4 cut) by auto.
+  rewrite map_app. f_equal. apply parse_ser. auto.
+Qed.
+
+Lemma new_file_records_none : forall es, Forall rec_packable es ->
+  file_records (SIGNATURE ++ flat_map ser_rec es) = es.
+Proof.
+  intros. unfold file_records. rewrite (skipn_len_app _ SIGNATURE) by apply SIGNATURE_length.
+  apply parse_ser. auto.
+Qed.
+
+Arguments SIGNATURE : simpl never.
+
+(* ================================================================== invariants carried by any walk *)
+
+Section WalkInv.
+  Context {St : Type}.
+  Variable chk : list N -> stat -> list N -> St -> list N * St.
+  Variable hdir : list N -> St -> list N * St.
+  Variable Inv : St -> Prop.
+  Variable Q : list N -> list N -> tree -> Prop.
+  Hypothesis Hfile : forall p n st d s, Inv s -> Q p n (File st d) -> Inv (snd (chk p st d s)).
+  Hypothesis Hlink : forall p n st d s, Inv s -> Q p n (Link st d) -> Inv (snd (chk p st d s)).
+  Hypothesis Hhdir : forall b s, Inv s -> Inv (snd (hdir b s)).
+
+  Lemma walk_entries_inv_gen : forall l,
+    Forall (fun e => forall p n s, Inv s -> tree_all Q p n (snd e) -> Inv (snd (walk chk hdir p (snd e) s))) l ->
+    forall p s, Inv s -> entries_all Q p l -> Inv (snd (walk_entries chk hdir p l s)).
+  Proof.
+    induction 1 as [|e tl He HF IH]; intros p s Hs A; simpl; auto.
+    destruct A as [A1 A2].
+    specialize (He _ _ s Hs A1).
+    destruct (walk chk hdir (pjoin p (fst e)) (snd e) s) as [d s1]. simpl in He.
+    specialize (IH p s1 He A2).
+    destruct (walk_entries chk hdir p tl s1) as [r s2]. simpl in *. auto.
+  Qed.
+
+  Lemma walk_inv : forall t p n s, Inv s -> tree_all Q p n t -> Inv (snd (walk chk hdir p t s)).
+  Proof.
+    induction t using tree_ind2; intros p n s0 Hs A; try (simpl; auto; fail).
+    - simpl in A. destruct A as [A _]. simpl. eapply Hfile; eauto.
+    - rewrite walk_dir. apply tree_all_dir in A. destruct A as [_ A].
+      pose proof (walk_entries_inv_gen es H p s0 Hs A) as W.
+      destruct (walk_entries chk hdir p es s0) as [blob s1]. simpl in *. auto.
+    - simpl in A. destruct A as [A _]. simpl. eapply Hlink; eauto.
+  Qed.
+
+  Lemma walk_entries_inv : forall l p s, Inv s -> entries_all Q p l -> Inv (snd (walk_entries chk hdir p l s)).
+  Proof.
+    intros. apply walk_entries_inv_gen; auto.
+    apply Forall_forall. intros. eapply walk_inv; eauto.
+  Qed.
+End WalkInv.
+
+(* ================================================================== what is written to cache.bin parses back *)
+
+Lemma advance_spec : forall name rest cur off,
+  exists skipped,
+    rest = skipped ++ snd (advance name cur off rest) /\
+    In (snd (fst (advance name cur off rest)), fst (fst (advance name cur off rest))) ((off, cur) :: skipped).
+Proof.
+  induction rest as [|[o r] tl IH]; intros cur off; simpl.
+  - exists []. simpl. auto.
+  - destruct (bytes_ltb (r_name cur) name).
+    + destruct (IH r o) as (sk & E & I). exists ((o, r) :: sk). split.
+      * simpl. congruence.
+      * right. exact I.
+    + exists []. simpl. auto.
+Qed.
+
+Lemma mask_ino_bound : forall i, mask_ino i < 18446744073709551616.
+Proof.
+  intros. unfold mask_ino. change 18446744073709551615 with (N.ones 64).
+  rewrite N.land_ones. apply N.mod_lt. discriminate.
+Qed.
+
+(* the node predicate used below: packable values and a non-empty path *)
+Definition node_pk (p n : list N) (t : tree) : Prop := node_packable p n t /\ p <> [].
+
+Lemma tree_all_pk : forall t p n, p <> [] ->
+  tree_all node_packable p n t -> tree_all node_named p n t -> tree_all node_pk p n t.
+Proof.
+  induction t using tree_ind2; intros p n Hp A B; try (simpl in *; unfold node_pk; tauto).
+  apply tree_all_dir in A, B. destruct A as [A1 A2], B as [B1 B2]. apply tree_all_dir. split.
+  - split; auto.
+  - apply entries_all_Forall. apply Forall_forall. intros e Ie.
+    rewrite Forall_forall in H. apply H; auto.
+    + apply pjoin_nonempty. pose proof (entries_all_In _ _ _ _ B2 Ie) as T. apply tree_all_node in T. exact T.
+    + eapply entries_all_In; eauto.
+    + eapply entries_all_In; eauto.
+Qed.
+
+Lemma entries_all_pk : forall l,
+  entries_all node_packable [] l -> entries_all node_named [] l -> entries_all node_pk [] l.
+Proof.
+  intros. apply entries_all_Forall. apply Forall_forall. intros e Ie.
+  pose proof (entries_all_In _ _ _ _ H Ie) as A. pose proof (entries_all_In _ _ _ _ H0 Ie) as B.
+  apply tree_all_pk; auto.
+  apply pjoin_nonempty. apply tree_all_node in B. exact B.
+Qed.
+
+Section Bytes.
+  Variable H : list N -> list N.
+  Hypothesis Hlen : forall x, length (H x) = 20%nat.
+  Variable has_in : bool.
+  Variable orig : list (N * rec).
+  Hypothesis orig_dig : Forall (fun x => length (r_digest (snd x)) = 20%nat) orig.
+
+  Definition cut_ok (c : N) : Prop := has_in = true -> In c (4 :: map fst orig).
+
+  Definition binv (s : ist) : Prop :=
+    (exists pre, orig = pre ++ i_rest s) /\
+    cut_ok (i_posold s) /\
+    (i_cur s = rec0 \/ length (r_digest (i_cur s)) = 20%nat) /\
+    match i_out s with
+    | Some (cut, es) => cut_ok cut /\ Forall rec_packable es
+    | None => True
+    end.
+
+  Lemma check_binv : forall name st blob s,
+    binv s -> name <> [] -> N.of_nat (length name) < 65536 ->
+    st_ctime st < 18446744073709551616 -> st_mtime st < 18446744073709551616 ->
+    st_dev st < 18446744073709551616 -> st_mode st < 4294967296 -> st_size st < 18446744073709551616 ->
+    binv (snd (check_full H name st blob s)).
+  Proof.
+    intros name st blob s ((pre & Epre) & Hpos & Hcur & Hout) Hn Hl R1 R2 R3 R4 R5.
+    unfold check_full.
+    destruct (advance_spec name (i_rest s) (i_cur s) (i_posold s)) as (sk & Esk & Isk).
+    destruct (advance name (i_cur s) (i_posold s) (i_rest s)) as [[cur off] rest]. simpl in Esk, Isk.
+    assert (Hoff : cut_ok off).
+    { intro Hi. destruct Isk as [Isk|Isk].
+      - inversion Isk; subst. auto.
+      - right. rewrite Epre, Esk. rewrite !map_app. apply in_or_app. right. apply in_or_app. left.
+        apply in_map_iff. exists (off, cur). auto. }
+    assert (Hcur' : cur = rec0 \/ length (r_digest cur) = 20%nat).
+    { destruct Isk as [Isk|Isk].
+      - inversion Isk; subst. auto.
+      - right. rewrite Forall_forall in orig_dig. apply (orig_dig (off, cur)).
+        rewrite Epre, Esk. apply in_or_app. right. apply in_or_app. left. auto. }
+    assert (Hnew : rec_packable (new_rec name st (if rec_matches cur name st then r_digest cur else H blob))).
+    { unfold rec_packable, new_rec. simpl. repeat split; auto using mask_ino_bound.
+      destruct (rec_matches cur name st) eqn:M; auto.
+      apply rec_matches_spec in M. destruct M as [M _].
+      destruct Hcur' as [C|C]; auto. subst cur. simpl in M. congruence. }
+    simpl. split; [|split; [|split]]; simpl; auto.
+    - exists (pre ++ sk). rewrite <- app_assoc. congruence.
+    - destruct (i_mism s || negb (rec_matches cur name st)); auto.
+      destruct (i_out s) as [[cut es]|].
+      + destruct Hout. split; auto. apply Forall_app. auto.
+      + split; auto.
+  Qed.
+
+  Lemma index_chk_binv : forall p n st d s, binv s ->
+    node_pk p n (File st d) \/ node_pk p n (Link st d) ->
+    binv (snd (index_chk H p st d s)).
+  Proof.
+    intros p n st d s B Q.
+    assert (R : node_packable p n (File st d) /\ p <> []).
+    { destruct Q as [Q|Q]; exact Q. }
+    destruct R as ((R1 & R2 & R3 & R4 & R5 & R6) & Hp). simpl in *.
+    pose proof (check_binv p st d s B Hp R6 R1 R2 R3 R4 R5) as C.
+    unfold index_chk. destruct (check_full H p st d s) as [[hit dg] s']. simpl in *. auto.
+  Qed.
+
+  Lemma walk_root_binv : forall l s, binv s -> entries_all node_pk [] l ->
+    binv (snd (walk_root (index_chk H) (index_hdir H) l s)).
+  Proof.
+    intros l s B A. unfold walk_root.
+    pose proof (walk_entries_inv (index_chk H) (index_hdir H) binv node_pk) as W.
+    assert (W1 : forall p n st d s0, binv s0 -> node_pk p n (File st d) -> binv (snd (index_chk H p st d s0))).
+    { intros p n st d s0 B0 Q0. apply (index_chk_binv p n st d s0 B0). left. exact Q0. }
+    assert (W2 : forall p n st d s0, binv s0 -> node_pk p n (Link st d) -> binv (snd (index_chk H p st d s0))).
+    { intros p n st d s0 B0 Q0. apply (index_chk_binv p n st d s0 B0). right. exact Q0. }
+    specialize (W W1 W2 ltac:(intros; simpl; auto) l [] s B A).
+    destruct (walk_entries (index_chk H) (index_hdir H) [] l s) as [blob s1]. simpl in *. auto.
+  Qed.
+End Bytes.
+
+Section Truthful.
+  Variable H : list N -> list N.
+  Hypothesis Hlen : forall x, length (H x) = 20%nat.
+  Variable content_of : list N -> statkey -> list N.
+
+  Theorem cache_file_truthful_proof : forall ign f es,
+    file_ok H content_of f -> consistent content_of es -> named es -> packable es ->
+    file_ok H content_of (next_file f (snd (hash_cached H ign f es))).
+  Proof.
+    intros ign f es Hf Hc Hn Hp. unfold hash_cached.
+    pose proof (open_index_inv H content_of f Hf) as Hs.
+    assert (Apk : entries_all node_pk [] (norm_entries ign es)).
+    { apply entries_all_pk; apply entries_all_norm; auto. }
+    destruct f as [b|].
+    - (* there is a cache file *)
+      unfold open_index in *.
+      destruct (bytes_eqb (firstn 4 b) SIGNATURE) eqn:Sig.
+      + set (orig := parse_body 4 (skipn 4 b)) in *.
+        assert (OD : Forall (fun x => length (r_digest (snd x)) = 20%nat) orig) by apply parse_digests.
+        assert (B0 : binv true orig (snd (match orig with
+                                          | [] => (Some b, mkist rec0 [] 4 false None)
+                                          | (o, r) :: tl => (Some b, mkist r tl o false None)
+                                          end))).
+        { destruct orig as [|[o r] tl] eqn:EO; simpl.
+          - repeat split; simpl; auto. exists []. reflexivity. intro. simpl. auto.
+          - inversion OD; subst. repeat split; simpl; auto. exists [(o, r)]. reflexivity. intro. simpl. auto. }
+        assert (INB : fst (match orig with
+                           | [] => (Some b, mkist rec0 [] 4 false None)
+                           | (o, r) :: tl => (Some b, mkist r tl o false None)
+                           end) = Some b) by (destruct orig as [|[o r] tl]; reflexivity).
+        destruct (match orig with
+                  | [] => (Some b, mkist rec0 [] 4 false None)
+                  | (o, r) :: tl => (Some b, mkist r tl o false None)
+                  end) as [inb s0]. simpl in INB, B0, Hs. subst inb.
+        destruct (cached_run_ok H content_of ign (Some b) es Hf Hc Hn s0 Hs) as [_ S1].
+        pose proof (walk_root_binv H Hlen true orig OD (norm_entries ign es) s0 B0 Apk) as B1.
+        destruct (walk_root (index_chk H) (index_hdir H) (norm_entries ign es) s0) as [d s]. simpl in *.
+        unfold close_index. destruct S1 as (_ & _ & So). destruct B1 as (_ & _ & _ & Bo).
+        destruct (i_out s) as [[cut es']|]; simpl; auto.
+        destruct Bo as [Bc Bp]. simpl in So.
+        rewrite new_file_records_in; auto.
+        apply Forall_app. split; auto.
+        unfold file_records in Hf. fold orig in Hf.
+        rewrite Forall_forall in *. intros r Ir. apply in_map_iff in Ir. destruct Ir as (x & Ex & Ix).
+        apply filter_In in Ix. destruct Ix as [Ix _]. apply Hf. subst r. apply in_map. auto.
+      + (* wrong signature: ignored, rewritten from scratch *)
+        simpl in Hs.
+        destruct (cached_run_ok H content_of ign (Some b) es Hf Hc Hn _ Hs) as [_ S1].
+        assert (B0 : binv false [] (mkist rec0 [] 0 true None)).
+        { repeat split; simpl; auto. exists []. reflexivity. intro. discriminate. }
+        pose proof (walk_root_binv H Hlen false [] (Forall_nil _) (norm_entries ign es) _ B0 Apk) as B1.
+        destruct (walk_root (index_chk H) (index_hdir H) (norm_entries ign es) (mkist rec0 [] 0 true None)) as [d s].
+        cbn [fst snd] in *. unfold close_index. destruct S1 as (_ & _ & So). destruct B1 as (_ & _ & _ & Bo).
+        destruct (i_out s) as [[cut es']|]; cbn [next_file file_ok]; auto.
+        destruct Bo as [_ Bp]. simpl in So. rewrite new_file_records_none; auto.
+    - (* no cache file *)
+      simpl in Hs.
+      destruct (cached_run_ok H content_of ign None es Hf Hc Hn _ Hs) as [_ S1].
+      assert (B0 : binv false [] (mkist rec0 [] 0 true None)).
+      { repeat split; simpl; auto. exists []. reflexivity. intro. discriminate. }
+      pose proof (walk_root_binv H Hlen false [] (Forall_nil _) (norm_entries ign es) _ B0 Apk) as B1.
+      simpl.
+      destruct (walk_root (index_chk H) (index_hdir H) (norm_entries ign es) (mkist rec0 [] 0 true None)) as [d s].
+      cbn [fst snd] in *. unfold close_index. destruct S1 as (_ & _ & So). destruct B1 as (_ & _ & _ & Bo).
+      destruct (i_out s) as [[cut es']|]; cbn [next_file file_ok]; auto.
+      destruct Bo as [_ Bp]. simpl in So. rewrite new_file_records_none; auto.
+  Qed.
+
+  (* every state of a history hashes the same with the cache left by the runs before *)
+  Theorem cache_transparent_history_proof : forall ign ts f,
+    file_ok H content_of f ->
+    Forall (fun es => consistent content_of es /\ named es /\ packable es) ts ->
+    run_history H ign f ts = map (hash_dir H ign) ts.
+  Proof.
+    induction ts as [|es ts IH]; intros f Hf F; simpl; auto.
+    inversion F as [|? ? (Hc & Hn & Hp) F']; subst.
+    pose proof (cache_transparent_proof H content_of ign f es Hf Hc Hn) as E.
+    pose proof (cache_file_truthful_proof ign f es Hf Hc Hn Hp) as T.
+    destruct (hash_cached H ign f es) as [d f']. simpl in *. subst d. f_equal. apply IH; auto.
+  Qed.
+End Truthful.
+
+(* ================================================================== a sorted cache file stays sorted *)
+
+(* the index operations of a walk, as a list *)
+Definition item := (list N * stat * list N)%type.
+
+Fixpoint items (p : list N) (t : tree) : list item :=
+  match t with
+  | File st d => [(p, st, d)]
+  | Link st g => [(p, st, g)]
+  | Dir _ es =>
+      (fix go (l : entries) : list item :=
+         match l with [] => [] | e :: tl => items (pjoin p (fst e)) (snd e) ++ go tl end) es
+  | _ => []
+  end.
+
+Fixpoint items_entries (p : list N) (l : entries) : list item :=
+  match l with [] => [] | e :: tl => items (pjoin p (fst e)) (snd e) ++ items_entries p tl end.
+
+Lemma items_dir : forall p s es, items p (Dir s es) = items_entries p es.
+Proof. intros. simpl. induction es; simpl; auto. rewrite IHes. reflexivity. Qed.
+
+Definition item_name (it : item) : list N := fst (fst it).
+
+Lemma items_names : forall t p, map item_name (items p t) = checked p t.
+Proof.
+  induction t using tree_ind2; intros; try reflexivity.
+  rewrite items_dir, checked_dir. induction H; simpl; auto.
+  rewrite map_app, H, IHForall. reflexivity.
+Qed.
+
+Lemma items_entries_names : forall l p, map item_name (items_entries p l) = checked_entries p l.
+Proof. induction l; intros; simpl; auto. rewrite map_app, items_names, IHl. reflexivity. Qed.
+
+Definition istep (H : list N -> list N) (s : ist) (it : item) : ist :=
+  snd (index_chk H (fst (fst it)) (snd (fst it)) (snd it) s).
+
+Lemma walk_fold_entries : forall H l,
+  Forall (fun e => forall p s, snd (walk (index_chk H) (index_hdir H) p (snd e) s) = fold_left (istep H) (items p (snd e)) s) l ->
+  forall p s, snd (walk_entries (index_chk H) (index_hdir H) p l s) = fold_left (istep H) (items_entries p l) s.
+Proof.
+  induction 1 as [|e tl He HF IH]; intros p s; simpl; auto.
+  specialize (He (pjoin p (fst e)) s).
+  destruct (walk (index_chk H) (index_hdir H) (pjoin p (fst e)) (snd e) s) as [d s1]. simpl in He.
+  specialize (IH p s1).
+  destruct (walk_entries (index_chk H) (index_hdir H) p tl s1) as [r s2]. simpl in *.
+  rewrite fold_left_app, <- He. auto.
+Qed.
+
+Lemma walk_fold : forall H t p s,
+  snd (walk (index_chk H) (index_hdir H) p t s) = fold_left (istep H) (items p t) s.
+Proof.
+  intros H t. induction t using tree_ind2; intros; try reflexivity.
+  rewrite walk_dir, items_dir.
+  pose proof (walk_fold_entries H es H0 p s0) as E.
+  destruct (walk_entries (index_chk H) (index_hdir H) p es s0). simpl in *. auto.
+Qed.
+
+Lemma walk_root_fold : forall H l s,
+  snd (walk_root (index_chk H) (index_hdir H) l s) = fold_left (istep H) (items_entries [] l) s.
+Proof.
+  intros. unfold walk_root.
+  pose proof (walk_fold_entries H l) as E.
+  specialize (E ltac:(apply Forall_forall; intros; apply walk_fold) [] s).
+  destruct (walk_entries (index_chk H) (index_hdir H) [] l s). simpl in *. auto.
+Qed.
+
+Definition rname (x : N * rec) : list N := r_name (snd x).
+Definition le_name (a b : list N) : Prop := bytes_lt a b \/ a = b.
+
+Lemma bytes_lt_trans : forall a b c, bytes_lt a b -> bytes_lt b c -> bytes_lt a c.
+Proof. unfold bytes_lt. intros. eapply bytes_ltb_trans; eauto. Qed.
+
+Lemma le_lt_name : forall a b c, le_name a b -> bytes_lt b c -> bytes_lt a c.
+Proof. intros a b c [L|E] L2. eapply bytes_lt_trans; eauto. subst. auto. Qed.
+
+Lemma SS_snoc : forall l x, StronglySorted bytes_lt l -> Forall (fun y => bytes_lt y x) l ->
+  StronglySorted bytes_lt (l ++ [x]).
+Proof.
+  intros. apply SS_app; auto.
+  - repeat constructor.
+  - intros a b Ia Ib. destruct Ib as [Ib|[]]. subst. rewrite Forall_forall in H0. auto.
+Qed.
+
+Lemma SS_app_inv_l : forall (A : Type) (R : A -> A -> Prop) a b, StronglySorted R (a ++ b) -> StronglySorted R a.
+Proof.
+  induction a; simpl; intros. constructor.
+  inversion H; subst. constructor; eauto.
+  rewrite Forall_forall in *. intros. apply H3. apply in_or_app. auto.
+Qed.
+
+Lemma SS_map : forall (A B : Type) (f : A -> B) (R : B -> B -> Prop) l,
+  StronglySorted (fun a b => R (f a) (f b)) l <-> StronglySorted R (map f l).
+Proof.
+  induction l; simpl; split; intros; try constructor.
+  - inversion H; subst. apply IHl. auto.
+  - inversion H; subst. rewrite Forall_forall in *. intros y Iy. apply in_map_iff in Iy. destruct Iy as (z & Ez & Iz). subst. auto.
+  - inversion H; subst. apply IHl. auto.
+  - inversion H; subst. rewrite Forall_forall in *. intros. apply H3. apply in_map. auto.
+Qed.
+
+(* with strictly increasing offsets, "offset < cut" selects exactly the records before the one at cut *)
+Lemma filter_before_split : forall pre cut c rest,
+  StronglySorted (fun a b : N * rec => fst a < fst b) (pre ++ (cut, c) :: rest) ->
+  filter (before cut) (pre ++ (cut, c) :: rest) = pre.
+Proof.
+  induction pre as [|a pre IH]; simpl; intros cut c rest S.
+  - unfold before at 1. simpl. rewrite N.ltb_irrefl.
+    inversion S; subst. apply filter_before_none. intros o r I.
+    rewrite Forall_forall in H2. specialize (H2 _ I). simpl in H2. lia.
+  - inversion S; subst. rewrite IH by auto.
+    unfold before. rewrite Forall_forall in H2.
+    assert (fst a < cut) by (apply (H2 (cut, c)); apply in_or_app; right; simpl; auto).
+    apply N.ltb_lt in H. rewrite H. reflexivity.
+Qed.
+
+Lemma advance_pos : forall name rest cur off,
+  exists moved,
+    (off, cur) :: rest =
+      moved ++ (snd (fst (advance name cur off rest)), fst (fst (advance name cur off rest)))
+            :: snd (advance name cur off rest) /\
+    Forall (fun x => bytes_lt (rname x) name) moved.
+Proof.
+  induction rest as [|[o r] tl IH]; intros cur off; simpl.
+  - exists []. auto.
+  - destruct (bytes_ltb (r_name cur) name) eqn:L.
+    + destruct (IH r o) as (mv & E & F). exists ((off, cur) :: mv). split.
+      * simpl. rewrite <- E. reflexivity.
+      * constructor; auto.
+    + exists []. auto.
+Qed.
+
+Section Sorted.
+  Variable H : list N -> list N.
+  Variable orig : list (N * rec).
+  Hypothesis off_sorted : StronglySorted (fun a b : N * rec => fst a < fst b) orig.
+  Hypothesis name_sorted : StronglySorted (fun a b => bytes_lt (rname a) (rname b)) orig.
+
+  Definition pos_ok (s : ist) (pre : list (N * rec)) : Prop :=
+    (orig = [] /\ pre = [] /\ i_rest s = []) \/ orig = pre ++ (i_posold s, i_cur s) :: i_rest s.
+
+  Definition out_names (s : ist) : option (list (list N)) :=
+    match i_out s with
+    | None => None
+    | Some (cut, es) => Some (map rname (filter (before cut) orig) ++ map r_name es)
+    end.
+
+  Definition out_sorted (s : ist) (n : list N) : Prop :=
+    match out_names s with
+    | None => True
+    | Some names => StronglySorted bytes_lt names /\ Forall (fun y => le_name y n) names
+    end.
+
+  Definition K (s : ist) (last : option (list N)) : Prop :=
+    exists pre, pos_ok s pre /\
+      match last with
+      | None => pre = [] /\ i_out s = None
+      | Some n => Forall (fun x => bytes_lt (rname x) n) pre /\ out_sorted s n
+      end.
+
+  Lemma K_step : forall s last it,
+    K s last -> (forall n, last = Some n -> bytes_lt n (item_name it)) ->
+    K (istep H s it) (Some (item_name it)).
+  Proof.
+    intros s last [[name st] blob] (pre & Hpos & Hlast) Hlt. unfold item_name in *. simpl in Hlt.
+    unfold istep, index_chk, check_full. simpl fst. simpl snd.
+    destruct (advance_pos name (i_rest s) (i_cur s) (i_posold s)) as (mv & Emv & Fmv).
+    destruct (advance name (i_cur s) (i_posold s) (i_rest s)) as [[cur off] rest] eqn:EA. simpl in Emv.
+    (* the new prefix *)
+    assert (Hpre : Forall (fun x => bytes_lt (rname x) name) pre).
+    { destruct last as [n|].
+      - destruct Hlast as [F _]. eapply Forall_impl; [|apply F]. intros. simpl in H0.
+        eapply bytes_lt_trans; eauto.
+      - destruct Hlast as [E _]. subst. constructor. }
+    assert (Hpos' : (orig = [] /\ pre ++ mv = [] /\ rest = []) \/ orig = (pre ++ mv) ++ (off, cur) :: rest).
+    { destruct Hpos as [(O & P & R)|O].
+      - left. rewrite R in Emv.
+        destruct mv as [|m mv]; simpl in Emv.
+        + inversion Emv. subst. rewrite app_nil_r. auto.
+        + exfalso. inversion Emv. destruct mv; discriminate.
+      - right. rewrite O, Emv, <- app_assoc. reflexivity. }
+    assert (Hpre' : Forall (fun x => bytes_lt (rname x) name) (pre ++ mv)) by (apply Forall_app; auto).
+    assert (Hkept : forall c, c = off -> filter (before c) orig = pre ++ mv).
+    { intros c Ec. subst c. destruct Hpos' as [(O & P & R)|O].
+      - rewrite O, P. reflexivity.
+      - pose proof off_sorted as OS. rewrite O in OS. rewrite O. apply filter_before_split. exact OS. }
+    assert (Hsorted_pre : StronglySorted bytes_lt (map rname (pre ++ mv))).
+    { apply (proj1 (SS_map _ _ rname bytes_lt _)). destruct Hpos' as [(O & P & R)|O].
+      - rewrite P. constructor.
+      - pose proof name_sorted as NS. rewrite O in NS. exact (SS_app_inv_l _ _ _ _ NS). }
+    exists (pre ++ mv). split.
+    - unfold pos_ok. simpl. exact Hpos'.
+    - split; auto.
+      unfold out_sorted, out_names. simpl.
+      set (dg := if rec_matches cur name st then r_digest cur else H blob).
+      destruct (i_mism s || negb (rec_matches cur name st)).
+      + destruct (i_out s) as [[cut es]|] eqn:EO.
+        * (* append to an existing output *)
+          destruct last as [n|]; [|destruct Hlast; congruence].
+          destruct Hlast as [_ Hs]. unfold out_sorted, out_names in Hs. rewrite EO in Hs. destruct Hs as [S1 S2].
+          rewrite map_app, app_assoc. simpl. split.
+          -- apply SS_snoc; auto. eapply Forall_impl; [|apply S2]. intros. simpl in H0.
+             eapply le_lt_name; eauto.
+          -- apply Forall_app. split.
+             ++ eapply Forall_impl; [|apply S2]. intros. simpl in H0. left. eapply le_lt_name; eauto.
+             ++ constructor; auto. right. reflexivity.
+        * (* first write: the copied prefix is what lies before the current record *)
+          rewrite (Hkept off eq_refl). simpl. split.
+          -- apply SS_snoc; auto. rewrite Forall_forall in *. intros y Iy. apply in_map_iff in Iy.
+             destruct Iy as (x & Ex & Ix). subst. auto.
+          -- apply Forall_app. split.
+             ++ rewrite Forall_forall in *. intros y Iy. apply in_map_iff in Iy.
+                destruct Iy as (x & Ex & Ix). subst. left. auto.
+             ++ constructor; auto. right. reflexivity.
+      + (* nothing written *)
+        destruct (i_out s) as [[cut es]|] eqn:EO; auto.
+        destruct last as [n|]; [|destruct Hlast; congruence].
+        destruct Hlast as [_ Hs]. unfold out_sorted, out_names in Hs. rewrite EO in Hs. destruct Hs as [S1 S2].
+        split; auto. eapply Forall_impl; [|apply S2]. intros. simpl in H0. left. eapply le_lt_name; eauto.
+  Qed.
+
+  Lemma K_fold : forall its s last,
+    K s last -> StronglySorted bytes_lt (map item_name its) ->
+    (forall n, last = Some n -> Forall (bytes_lt n) (map item_name its)) ->
+    exists last', K (fold_left (istep H) its s) last'.
+  Proof.
+    induction its as [|it its IH]; intros s last HK S HL; simpl.
+    - eauto.
+    - simpl in S. inversion S; subst.
+      apply (IH (istep H s it) (Some (item_name it))); auto.
+      + eapply K_step; eauto. intros n En. specialize (HL n En). simpl in HL. inversion HL; auto.
+      + intros n En. inversion En; subst. auto.
+  Qed.
+End Sorted.
+
+Lemma parse_offsets_sorted : forall f pos b,
+  StronglySorted (fun a b : N * rec => fst a < fst b) (parse_entries f pos b).
+Proof.
+  induction f; simpl; intros. constructor.
+  destruct (read_entry b) as [[[r len] rest]|] eqn:E; [|constructor].
+  constructor; auto.
+  apply Forall_forall. intros [o r'] I. simpl.
+  apply parse_offsets_ge in I. apply read_entry_shrink in E. lia.
+Qed.
+
+Definition orig_of (f : option (list N)) : list (N * rec) :=
+  match f with
+  | Some b => if bytes_eqb (firstn 4 b) SIGNATURE then parse_body 4 (skipn 4 b) else []
+  | None => []
+  end.
+
+Lemma tree_all_impl : forall (P Q : list N -> list N -> tree -> Prop),
+  (forall p n t, P p n t -> Q p n t) -> forall t p n, tree_all P p n t -> tree_all Q p n t.
+Proof.
+  intros P Q PQ. induction t using tree_ind2; intros p n A; try (simpl in *; intuition; fail).
+  apply tree_all_dir in A. destruct A as [A1 A2]. apply tree_all_dir. split; auto.
+  apply entries_all_Forall. apply Forall_forall. intros e Ie.
+  rewrite Forall_forall in H. apply H; auto. eapply entries_all_In; eauto.
+Qed.
+
+Lemma entries_all_impl : forall (P Q : list N -> list N -> tree -> Prop),
+  (forall p n t, P p n t -> Q p n t) -> forall l p, entries_all P p l -> entries_all Q p l.
+Proof.
+  intros P Q PQ l p A. apply entries_all_Forall. apply Forall_forall. intros e Ie.
+  eapply tree_all_impl; eauto. eapply entries_all_In; eauto.
+Qed.
+
+Lemma listing_named : forall es, listing es -> named es.
+Proof.
+  intros es [_ A]. unfold named. eapply entries_all_impl; [|apply A].
+  intros p n t (Hn & _). exact Hn.
+Qed.
+
+Section Shape.
+  Variable H : list N -> list N.
+  Hypothesis Hlen : forall x, length (H x) = 20%nat.
+
+  (* what the new cache file contains, in terms of the final index state *)
+  Lemma hash_cached_shape : forall ign f es, named es -> packable es ->
+    match i_out (snd (walk_root (index_chk H) (index_hdir H) (norm_entries ign es) (snd (open_index f)))) with
+    | None => snd (hash_cached H ign f es) = None
+    | Some (cut, es') =>
+        exists b', snd (hash_cached H ign f es) = Some b' /\
+                   file_records b' = map snd (filter (before cut) (orig_of f)) ++ es'
+    end.
+  Proof.
+    intros ign f es Hn Hp. unfold hash_cached.
+    assert (Apk : entries_all node_pk [] (norm_entries ign es)).
+    { apply entries_all_pk; apply entries_all_norm; auto. }
+    assert (B00 : binv false [] (mkist rec0 [] 0 true None)).
+    { repeat split; simpl; auto. exists []. reflexivity. intro. discriminate. }
+    destruct f as [b|]; unfold open_index, orig_of.
+    - destruct (bytes_eqb (firstn 4 b) SIGNATURE) eqn:Sig.
+      + set (orig := parse_body 4 (skipn 4 b)).
+        assert (OD : Forall (fun x => length (r_digest (snd x)) = 20%nat) orig) by apply parse_digests.
+        assert (B0 : binv true orig (snd (match orig with
+                                          | [] => (Some b, mkist rec0 [] 4 false None)
+                                          | (o, r) :: tl => (Some b, mkist r tl o false None)
+                                          end))).
+        { destruct orig as [|[o r] tl] eqn:EO; simpl.
+          - repeat split; simpl; auto. exists []. reflexivity. intro. simpl. auto.
+          - inversion OD; subst. repeat split; simpl; auto. exists [(o, r)]. reflexivity. intro. simpl. auto. }
+        assert (INB : fst (match orig with
+                           | [] => (Some b, mkist rec0 [] 4 false None)
+                           | (o, r) :: tl => (Some b, mkist r tl o false None)
+                           end) = Some b) by (destruct orig as [|[o r] tl]; reflexivity).
+        destruct (match orig with
+                  | [] => (Some b, mkist rec0 [] 4 false None)
+                  | (o, r) :: tl => (Some b, mkist r tl o false None)
+                  end) as [inb s0]. cbn [fst snd] in *. subst inb.
+        pose proof (walk_root_binv H Hlen true orig OD (norm_entries ign es) s0 B0 Apk) as B1.
+        destruct (walk_root (index_chk H) (index_hdir H) (norm_entries ign es) s0) as [d s]. cbn [fst snd] in *.
+        unfold close_index. destruct B1 as (_ & _ & _ & Bo).
+        destruct (i_out s) as [[cut es']|]; auto.
+        destruct Bo as [Bc Bp]. eexists. split; [reflexivity|].
+        apply new_file_records_in; auto.
+      + cbn [fst snd].
+        pose proof (walk_root_binv H Hlen false [] (Forall_nil _) (norm_entries ign es) _ B00 Apk) as B1.
+        destruct (walk_root (index_chk H) (index_hdir H) (norm_entries ign es) (mkist rec0 [] 0 true None)) as [d s].
+        cbn [fst snd] in *. unfold close_index. destruct B1 as (_ & _ & _ & Bo).
+        destruct (i_out s) as [[cut es']|]; auto.
+        destruct Bo as [_ Bp]. eexists. split; [reflexivity|]. simpl. apply new_file_records_none; auto.
+    - cbn [fst snd].
+      pose proof (walk_root_binv H Hlen false [] (Forall_nil _) (norm_entries ign es) _ B00 Apk) as B1.
+      destruct (walk_root (index_chk H) (index_hdir H) (norm_entries ign es) (mkist rec0 [] 0 true None)) as [d s].
+      cbn [fst snd] in *. unfold close_index. destruct B1 as (_ & _ & _ & Bo).
+      destruct (i_out s) as [[cut es']|]; auto.
+      destruct Bo as [_ Bp]. eexists. split; [reflexivity|]. simpl. apply new_file_records_none; auto.
+  Qed.
+
+  Lemma open_index_K : forall f, K (orig_of f) (snd (open_index f)) None.
+  Proof.
+    intros f. exists []. unfold pos_ok, orig_of, open_index.
+    destruct f as [b|]; [destruct (bytes_eqb (firstn 4 b) SIGNATURE);
+                         [destruct (parse_body 4 (skipn 4 b)) as [|[o r] tl]|]|];
+      cbn [fst snd i_rest i_posold i_cur i_out app]; auto.
+  Qed.
+
+  Theorem index_sorted_preserved_proof : forall ign f es,
+    listing es -> packable es -> file_sorted f ->
+    file_sorted (next_file f (snd (hash_cached H ign f es))).
+  Proof.
+    intros ign f es Hl Hp Hs.
+    pose proof (listing_named es Hl) as Hn.
+    pose proof (hash_cached_shape ign f es Hn Hp) as Sh.
+    rewrite walk_root_fold in Sh.
+    (* the fold keeps the output sorted *)
+    assert (OS : StronglySorted (fun a b : N * rec => fst a < fst b) (orig_of f)).
+    { unfold orig_of. destruct f as [b|]; [|constructor].
+      destruct (bytes_eqb (firstn 4 b) SIGNATURE); [|constructor]. apply parse_offsets_sorted. }
+    assert (NS : StronglySorted (fun a b => bytes_lt (rname a) (rname b)) (orig_of f)).
+    { unfold orig_of. destruct f as [b|]; [|constructor].
+      destruct (bytes_eqb (firstn 4 b) SIGNATURE); [|constructor].
+      unfold file_sorted, names_in_file, file_records in Hs. rewrite map_map in Hs.
+      apply (proj2 (SS_map _ _ rname bytes_lt _)). exact Hs. }
+    destruct (K_fold H (orig_of f) OS NS (items_entries [] (norm_entries ign es)) (snd (open_index f)) None
+                (open_index_K f)) as (last' & pre & _ & HK).
+    { rewrite items_entries_names. apply dfs_order_sorted_proof. auto. }
+    { intros n En. discriminate. }
+    set (s := fold_left (istep H) (items_entries [] (norm_entries ign es)) (snd (open_index f))) in *.
+    destruct (i_out s) as [[cut es']|] eqn:EO.
+    - destruct Sh as (b' & Eb & Er). rewrite Eb. cbn [next_file]. unfold file_sorted, names_in_file. rewrite Er.
+      destruct last' as [n|]; [|destruct HK; congruence].
+      destruct HK as [_ HK]. unfold out_sorted, out_names in HK. rewrite EO in HK. destruct HK as [S _].
+      rewrite map_app, map_map. exact S.
+    - rewrite Sh. cbn [next_file]. exact Hs.
+  Qed.
+End Shape.
